@@ -23,6 +23,7 @@ DIMSETS = {
     "T3d_r2": [("t", "Time", [2010, 1990, 2000], int), ("r", "Region", ["r2", "r1"], str)],  # items not in ascending order
     "c3u": [("c", "Cohort", [2010.0, 1990.5, 2000.0], None)],
     "or2_r3": [("o", "Origin region", ["EUR", "USA"], str), ("r", "Region", ["CHN", "IND", "BRA"], str)],  # a name inside another name
+    "o2_r3n": [("o", "Origin", ["EU", "US"], str), ("r", "Region", ["EU", "US", "CN"], str)],  # one item set inside another (still different sets)
     "a3i0_e2": [("a", "Age", [0, 1, 2], int), ("e", "Element", ["", "Fe"], str)],  # labels that are falsy in Python
 }
 
